@@ -58,6 +58,10 @@ CHECKS = {
             "The pool is a stub (in-process workers; pickling preserved, separate module globals and real scheduling not). " + COMMON_NOTE,
             "deterministic simulation: simulated process pool with planned schedules, sequential analysis as reference model",
             "DESIGN.md section 4, C15"),
+    "C22": ("Seeded search over histories of creation and toolbox edits (drop_*, fuse_buses, select_subnet, merge_nets, reindex_*, create_continuous_*_index, replace_*) on nets that carry one reference of every kind; a referential-integrity invariant (bus references, switch targets, measurements, costs, group members incl. reference columns, controller targets, characteristic ids, result-table indices) is evaluated after every edit that returns.",
+            "History search with a step-wise invariant, no fault dimension (the property speaks of edits that complete; rejected edits are rolled back). Open known findings: controller targets after replace_* and drop_elements_at_buses. " + COMMON_NOTE,
+            "deterministic simulation (history dimension only): seeded edit sequences with a referential-integrity invariant after every step",
+            "DESIGN.md section 4, C22"),
     "C30": ("Seeded search over interleavings of several Diagnostic clients (instantiation, registration, diagnose_network with options, report) in one process; every call is checked against a per-instance model, a snapshot of the diagnosed net, and - for a sampled subset - the same call as the only call of a fresh forked process.",
             "The fresh-process oracle is sampled (about 1 in 3 calls, at least one per episode) because fork is expensive under load in this VM; known module-level state is reset at episode start. " + COMMON_NOTE,
             "deterministic simulation: seeded client interleaving over shared process state, reference model + fresh-process isolation oracle",
